@@ -163,10 +163,10 @@ def add_edges(res, ed, prop):
 def generic_tracegen_check(prop, mc_names, extra_notes=(), edges=False):
     def fn(tier_):
         res = Result(prop)
-        tg = stages.tracegen_stage(tier_, tree_key("tracegen-" + tier_ + str(seed())))
+        tg = stages.tracegen_stage(tier_, tree_key())
         add_tracegen(res, tg, prop)
         if edges:
-            add_edges(res, stages.edges_stage(tier_, tree_key("edges-" + tier_ + str(seed()))), prop)
+            add_edges(res, stages.edges_stage(tier_, tree_key()), prop)
         if mc_names:
             add_mc(res, tier_, mc_names)
         res.assumptions = ASSUME_TRACE + (ASSUME_MC if mc_names else [])
@@ -188,3 +188,96 @@ CHECKS = {
     "C11": generic_tracegen_check("C11", MC_RUNS_ONLY + ["MC_Live"]),
     "C17": generic_tracegen_check("C17", MC_SAFETY, edges=True),
 }
+
+# ---------------------------------------------------------------------------
+# history-based properties (TraceHistory.tla)
+from . import hist
+
+def add_hist(res, st, prop, stage_name, describe):
+    n = 0
+    for f in st["findings"]:
+        if f["kind"] == "V" and f["tag"] == prop:
+            n += 1
+            sig, desc, replay = describe(f)
+            res.violation("%s:%s:%s" % (prop, stage_name, sig), desc, dict(replay, stage=stage_name, property=prop, reason=f["why"]))
+        elif f["kind"] == "V":
+            res.notes.append("finding for another property in this stage: %s %s" % (f["tag"], f["why"][:200]))
+        elif f["kind"] == "D":
+            res.drift.append({"tag": f["tag"], "why": f["why"], "job": stage_name, "event": f["line"]})
+    cov = st["coverage"]
+    res.coverage[stage_name] = cov
+    res.coverage["traces_validated_against_impl"] = res.coverage.get("traces_validated_against_impl", 0) + sum(
+        cov.get(k, 0) for k in ("call_sequences", "generations", "batches", "witness_generations_validated", "generators_measured", "cases"))
+    res.coverage["trace_validation_tlc_states"] = res.coverage.get("trace_validation_tlc_states", 0) + cov.get("tlc_states", 0)
+    res.samples.extend(st.get("samples", [])[:3])
+    return n
+
+def check_C08(tier_):
+    res = Result("C08")
+    st = hist.reuse_stage(tier_, tree_key())
+    add_hist(res, st, "C08", "reuse", lambda f: ("result differs from a fresh generator",
+             "%s [P%s cfg #%s]" % (f["why"], f["record"]["P"], f["record"]["cfg"]),
+             {"record": f["record"], "spec": st["spec"]}))
+    add_mc(res, tier_, ["MC_Life"])
+    res.assumptions = ["fresh twin built by the harness with the same builder calls", "digest = FNV-1a 64 of the returned bytes plus length"] + ASSUME_MC
+    return res
+
+def check_C07(tier_):
+    res = Result("C07")
+    st = hist.determinism_stage(tier_, tree_key())
+    add_hist(res, st, "C07", "determinism", lambda f: ("same configuration and input, different bytes",
+             "%s [%s]" % (f["why"], json.dumps(f.get("job"))[:300]), {"record": f["record"], "job": f.get("job")}))
+    add_mc(res, tier_, ["MC_Life"])
+    res.assumptions = ["influence of wall clock / OS randomness / hash seeds / ASLR is only observable as run-to-run difference; sampled across 16 threads, separately spawned processes and rayon worker counts 1/2/16",
+                       "in GenModel every choice is a function of (state, draw): no variable is shared between generator instances"]
+    return res
+
+def check_C09(tier_):
+    res = Result("C09")
+    st = hist.total_stage(tier_, tree_key())
+    add_hist(res, st, "C09", "total", lambda f: ("generation call did not return a pickle",
+             "%s [%s]" % (f["why"], json.dumps(f.get("batch"))[:400]), {"record": f["record"], "batch": f.get("batch")}))
+    tg = stages.tracegen_stage(tier_, tree_key())
+    add_tracegen(res, tg, "C09")
+    add_mc(res, tier_, ["MC_RunQuick", "MC_RunThorough", "MC_Live"])
+    res.assumptions = ["panic / abort / stack-overflow freedom is decided by execution (child processes under a watchdog); the specification contributes termination of the design (MC_Live under weak fairness) and the call/return protocol",
+                       "harness built with debug-assertions and overflow-checks on"]
+    return res
+
+def check_C12(tier_):
+    res = Result("C12")
+    st = hist.vocab_stage(tier_, tree_key())
+    add_hist(res, st, "C12", "vocab", lambda f: ("opcode never produced", f["why"], {"record": f["record"]}))
+    res.assumptions = ["seed range is fixed (0..N-1 per protocol, default settings); opcode sets come from the emission hook and every witness generation is re-decoded by the TLA+ Lexer"]
+    return res
+
+def check_C14(tier_):
+    res = Result("C14")
+    st = hist.leak_stage(tier_, tree_key())
+    def desc(f):
+        r = f["record"] or {}
+        sig = "cycle-closed-by-0x%02x" % r.get("cycle_op", 0) if r.get("cycle") else "leak-without-cycle"
+        return sig, "%s [%s]" % (f["why"], job_brief(f["job"]) if f.get("job") else ""), {"record": r, "job": f.get("job")}
+    add_hist(res, st, "C14", "leak", desc)
+    res.assumptions = ["live heap measured by a counting global allocator in the harness process, single-threaded, after one warm-up generation per protocol",
+                       "reference cycles are detected by the hook by walking the Rc graph from stack and memo roots after every event"]
+    return res
+
+CHECKS.update({"C07": check_C07, "C08": check_C08, "C09": check_C09, "C12": check_C12, "C14": check_C14})
+
+def check_C12_full(tier_):
+    res = check_C12(tier_)
+    rs = stages.reach_stage(tier_, tree_key())
+    res.coverage["states"] = sum(r["distinct_states"] for r in rs["model_runs"])
+    res.coverage["transitions"] = sum(r["states_generated"] for r in rs["model_runs"])
+    res.coverage["model_checking_runs"] = rs["model_runs"]
+    res.coverage["model_witnesses_replayed_into_implementation"] = rs["replayed"]
+    res.coverage["opcodes_with_replayed_model_witness_per_protocol"] = {P: len(v) for P, v in rs["ok_pairs"].items()}
+    res.coverage["traces_validated_against_impl"] += rs["replayed"]
+    for f in rs["failed_same_protocol"]:
+        res.drift.append({"tag": "witness", "why": "model witness for opcode 0x%02x is not executable in the implementation (step %d of %s)" % (f["op"], f["failed_at"], f["path"]),
+                          "job": "P%d" % f["P"], "event": f["failed_at"]})
+    res.samples.extend(rs["samples"][:3])
+    res.assumptions.append("design-level reachability (MC_Reach: shortest witness per opcode, restricted constructor alphabet) is replayed through the forced-choice hook; a failed replay is drift, the verdict is the seed scan")
+    return res
+CHECKS["C12"] = check_C12_full
